@@ -190,7 +190,58 @@ def run(tier, seed):
                 ck.disagree('--hex display differs from model', rp)
     except Exception as e:  # noqa
         ck.disagree('peltool.printPELInHexFormat unavailable: %r' % e, {})
+    hex_display_cli(ck, rng, hd, thorough)
     return ck.finish(RULE, TRUSTED, ASSUME)
+
+
+def hex_display_cli(ck, rng, hd, thorough):
+    """`--hex` through the command line: whatever mode displays a PEL file in hex reproduces the FILE's bytes exactly between the
+    begin/end markers - also when the file carries bytes after its last section (fill bytes, a trailer)"""
+    import shutil
+    import clirun
+    import pelbuild
+    paths = []
+    try:
+        for rnd in range(6 if thorough else 2):
+            files = []
+            for i in range(3):
+                secs = [pelbuild.UH(), pelbuild.SRC(), pelbuild.UD(bytes(rng.randrange(256) for _ in range(rng.randrange(1, 60))), sub=2)]
+                pel = pelbuild.pel(secs, eid=0x50001000 + 16 * rnd + i, obmc=700 + 16 * rnd + i)
+                tail = rng.choice([b'', b'', b'\0' * rng.randrange(1, 9), bytes(rng.randrange(256) for _ in range(rng.randrange(1, 80)))])
+                files.append(('pel_%d_%d_%08X' % (rnd, i, 0x50001000 + 16 * rnd + i), pel + tail))
+            d = clirun.make_dir(files)
+            paths.append(d)
+            runs = [(['-p', d, '-a', '-x', '-E'], [b for _, b in sorted(files)]), (['-p', d, '-l', '-x', '-E'], [b for _, b in sorted(files)])]
+            for n, b in files:
+                runs.append((['-f', os.path.join(d, n), '-x', '-E'], [b]))
+            n0, b0 = files[0]
+            runs.append((['-p', d, '-i', n0[-8:], '-x'], [b0]))
+            runs.append((['-p', d, '--bmc-id', str(700 + 16 * rnd), '-x'], [b0]))
+            for argv, want in runs:
+                so, se, sx = clirun.run_main(argv)
+                blocks, cur = [], None
+                for ln in so.split('\n'):
+                    if 'Begin' in ln:
+                        cur = []
+                    elif 'End' in ln:
+                        if cur is not None:
+                            blocks.append(cur)
+                        cur = None
+                    elif cur is not None:
+                        cur.append(ln)
+                try:
+                    got = [bytes(hd.parse(bl)) for bl in blocks]
+                except Exception:
+                    got = None
+                ck.case(key=('hexcli', tuple(argv[2:]), tuple(want)), sample={'cli': ' '.join(a for a in argv if a.startswith('-')), 'files': len(want)} if rnd == 0 else None)
+                ck.count('--hex through ' + ' '.join(a for a in argv if a.startswith('-') and a not in ('-p', '-E', '-x')))
+                if got != want:
+                    ck.fail('the --hex display of a PEL file does not reproduce the file\'s bytes between its markers',
+                            {'op': 'cli-hex', 'argv': [a for a in argv if not a.startswith('/')], 'files': [(n, b.hex()) for n, b in files],
+                             'shown_lengths': [len(g) for g in got] if got is not None else None, 'file_lengths': [len(w) for w in want]}, 'hex_display_cli')
+    finally:
+        for p in paths:
+            shutil.rmtree(p, ignore_errors=True)
 
 
 def replay(path):
